@@ -183,6 +183,21 @@ def svh_case(ctx, rng, idx):
         s = min(rng.choice([1, 2, 2, 3, 3, 3, 4, 5]), len(labels))
         e = tuple(sorted(rng.sample(labels, s)))
         es[e] = rng.choice([1, 1, 2, 3, 5]) if weighted else 1
+    if rng.random() < 0.4:
+        # family aimed at the step-up rule: equal or near-equal heavy hyperedges of one size, so that a lower
+        # rank can fail its threshold while a higher rank passes (ties, p in [bonf, 2*bonf))
+        weighted = True
+        es = {}
+        n = rng.choice([2, 2, 3])
+        pool = labels[:]
+        rng.shuffle(pool)
+        groups = [tuple(sorted(pool[i: i + n])) for i in range(0, len(pool) - n + 1, n)][: rng.randint(2, 3)]
+        wbase = rng.randint(5, 30)
+        for g in groups:
+            es[g] = wbase + rng.choice([0, 0, 0, 1, 2])
+        if len(labels) >= n and rng.random() < 0.5:
+            e = tuple(sorted(rng.sample(labels, n)))
+            es.setdefault(e, 1)
     h = hgx.Hypergraph(list(es), weighted=weighted, weights=list(es.values()) if weighted else None)
     max_order = rng.choice([2, 3, 4, 5, 10])
 
